@@ -28,6 +28,15 @@ CHECKS = {
              'the implementation is not verified and is known unsound and incomplete (F-C15a/b).',
         technique='Coq proof of a UPA decision procedure against declarative UPA; differential build verdicts',
         design='5/C15'),
+    'C17': dict(
+        text='Proof that the modelled NamespaceMapper (stacked mode) keeps, for every operation history, the invariant '
+             '"every reverse entry is backed by a live prefix binding" and that under it unmap(map(name)) = name; '
+             'push/pop of a declaring node restores the maps (partial: single push/pop, not whole traversals). Tied to '
+             'the code by pre-order operation sequences of generated documents (shadowing, default set/unset) and end '
+             'to end by resolving every decoded key and re-encoding (JsonML and default converters).',
+        technique='Coq invariant proof for a faithful model of NamespaceMapper; differential op sequences; '
+                  'decode/encode name resolution on generated documents',
+        design='5/C17'),
     'C16': dict(
         text='Proof (all namespace lists, both versions) that the modelled union / intersection / '
              'is_restriction / is_overlap coincide with set union / intersection / inclusion / non-empty '
